@@ -64,6 +64,11 @@ func trafficAround(e chain.Event) (pre, post []chain.Event) {
 	pre = append(pre,
 		chain.Event{Kind: "query", Path: "/store/auth/key", Data: accKey},
 		chain.Event{Kind: "query", Path: "/custom/gov/acl"},
+		// queries whose keepers fetch module accounts (created on first use when absent)
+		chain.Event{Kind: "query", Path: "/custom/gov/dao"},
+		chain.Event{Kind: "query", Path: "/custom/gov/daoOwner"},
+		chain.Event{Kind: "query", Path: "/custom/pos/stakedPool"},
+		chain.Event{Kind: "query", Path: "/custom/pos/unstakedPool"},
 	)
 	if (e.Kind == "tx") && e.Tx != nil {
 		t := *e.Tx
@@ -135,7 +140,8 @@ func runC01variant(cfg chain.Config, v *c01variant, blocks []chain.Block) (tr c0
 				nb.Events = append(nb.Events, post...)
 			}
 			if len(b.Events) == 0 {
-				_, post := trafficAround(chain.Event{})
+				pre, post := trafficAround(chain.Event{})
+				nb.Events = append(nb.Events, pre...)
 				nb.Events = append(nb.Events, post...)
 			}
 		}
